@@ -48,7 +48,8 @@ def calc_of(w, ti, obj):
     """the harness's own evaluation of the tree's id rule: callback if the tree has one, else hash()"""
     fn = calc_fn_of(w, ti)
     try:
-        return hash(obj) if fn is None else fn(w.trees[ti], obj)
+        v = hash(obj) if fn is None else fn(w.trees[ti], obj)
+        return v if isinstance(v, (int, str)) else RAISES      # an unhashable answer is as unusable as a raising hook
     except (CallbackFault, TypeError):
         return RAISES
 
@@ -97,6 +98,13 @@ def canon_data(w):
     return [i for i, o in enumerate(w.U.objs) if w.U.index(o) == i]
 
 
+def usable_did(v):
+    """rendering of an id the hook answered; an unhashable answer is as unusable as a raising hook (mut.outcome_of)"""
+    if not isinstance(v, (int, str)):
+        raise TypeError("unhashable data_id")
+    return mut.did_sx(v)
+
+
 def cb(f):
     """[0, value] or [1] when the call raises"""
     try:
@@ -128,6 +136,8 @@ class Prober:
                     v = hash(o) if fn is None else fn(None, o)
                 except (CallbackFault, TypeError):
                     continue
+                if not isinstance(v, (int, str)):
+                    continue        # a hook answering an unhashable value: such a node can never exist, nothing to look up
                 if not any(v == y and type(v) is type(y) for y in dids):
                     dids.append(v)
         for x in ABSENT_DIDS:
@@ -187,10 +197,15 @@ class Prober:
         try:
             return [0, [w.rel(t[key])]]
         except Exception as e:
-            c = H.err_class(e)
-            if isinstance(e, CallbackFault):
-                c = 8
-            return [1, c]
+            return mut.outcome_of(e)      # a raising hook and an unhashable id are one outcome (8)
+
+    def safe_ask(self, w, ti, key):
+        """ask, total: a query that raises on a corrupted index (get_clones / is_clone: KeyError ...) is an
+        answer the model never gives, not a harness error"""
+        try:
+            return self.ask(w, ti, key)
+        except Exception as e:
+            return [-9, H.err_class(e)]
 
     def ask(self, w, ti, key):
         t = w.trees[ti]
@@ -203,7 +218,7 @@ class Prober:
                     cb(lambda: H.sx_opt((lambda r: None if r is None else w.rel(r))(t.find_first(o)))),
                     cb(lambda: bool(o in t)),
                     self.getitem(w, t, o),
-                    cb(lambda: mut.did_sx(t.calc_data_id(o)))]
+                    cb(lambda: usable_did(t.calc_data_id(o)))]
         if k == "did":
             e = key[1]
             return [self.ids(w, t.find_all(data_id=e)),
@@ -233,12 +248,12 @@ class Prober:
         self.update_keys(w)
         first = []
         for ti in range(len(w.trees)):
-            first.append({key: self.ask(w, ti, key) for key in self.keys[ti]})
+            first.append({key: self.safe_ask(w, ti, key) for key in self.keys[ti]})
         # second pass, after the first one scribbled on every list it was given: same questions, same answers
         cur = []
         self.alias_msg = None
         for ti in range(len(w.trees)):
-            again = {key: self.ask(w, ti, key) for key in self.keys[ti]}
+            again = {key: self.safe_ask(w, ti, key) for key in self.keys[ti]}
             cur.append(again)
             if self.alias_msg is None:
                 for key in self.keys[ti]:
@@ -562,7 +577,11 @@ def setdata_pre(w, op):
     if op[0] not in ("set_data", "rename"):
         return None
     nd = w.live_node(op[2], op[1])
-    return None if nd is None else (nd, nd._data, nd._data_id)
+    if nd is None:
+        return None
+    # the clone group BEFORE the call, by an identity walk (not by the index under test)
+    group = [x for x in mut.tree_nodes(w.trees[op[1]]) if x._data_id == nd._data_id and type(x._data_id) is type(nd._data_id)]
+    return (nd, nd._data, nd._data_id, group)
 
 
 def setdata_oracle(w, step, before):
@@ -572,7 +591,7 @@ def setdata_oracle(w, step, before):
     op, res = step["op"], step["res"]
     if before is None or res[0] != 0:
         return None
-    nd, old_data, old_id = before
+    nd, old_data, old_id, group = before
     ti = op[1]
     if op[0] == "rename":
         d, did = op[3], None
@@ -595,6 +614,16 @@ def setdata_oracle(w, step, before):
             return f"set_data: node {me} is not found by find_all(data_id={exp!r}) after it was re-keyed"
         if did is None and d is not None and w.dobj(d) is not old_data and not any(x is nd for x in t.find_all(w.dobj(d))):
             return f"set_data: node {me} is not found by find_all(<data object #{d}>) after set_data with that object"
+        if op[0] == "set_data" and op[5] is True and len(group) > 1:
+            # with_clones=True: EVERY node that carried the old id takes the new id (and the new data object) along
+            for x in group:
+                if x._data_id != exp:
+                    return (f"set_data(with_clones=True) on node {me}: clone {w.rel(x)} of the group of {len(group)} still has "
+                            f"data_id {x._data_id!r}, expected {exp!r}")
+                if d is not None and w.dobj(d) is not old_data and x._data is not w.dobj(d):
+                    return f"set_data(with_clones=True) on node {me}: clone {w.rel(x)} does not hold the new data object"
+                if not any(y is x for y in t.find_all(data_id=exp)):
+                    return f"set_data(with_clones=True) on node {me}: clone {w.rel(x)} is not found under the new id {exp!r}"
     except Exception as e:
         return f"set_data: lookup after set_data raised {e!r}"
     return None
